@@ -111,7 +111,36 @@ func treeIdentity() map[string]string {
 	return map[string]string{"head": strings.TrimSpace(string(head)), "dirty": d}
 }
 
+// runWorkers spends the budget in generations of fresh worker processes: a
+// worker's memory grows with the number of runs it has done (under the race
+// detector to gigabytes within minutes), and sixteen of them must fit next to
+// whatever else the machine is doing. Every generation searches from a base
+// seed of its own (recorded in its replay files); the first violation or
+// infrastructure error ends the search.
 func runWorkers(bin, prop, tier string, seed uint64, nw int, budgetMs int, extra []string, scratch string) []*workerOut {
+	chunk := 150000
+	if strings.Contains(filepath.Base(bin), ".race.") {
+		chunk = 60000
+	}
+	var all []*workerOut
+	for gen := 0; budgetMs > 0; gen++ {
+		b := budgetMs
+		if b > chunk+chunk/3 {
+			b = chunk
+		}
+		budgetMs -= b
+		outs := runWorkersOnce(bin, prop, tier, seed+uint64(gen)*7919000003, nw, b, extra, scratch)
+		all = append(all, outs...)
+		for _, o := range outs {
+			if o.Infra != "" || len(o.Violation) > 0 {
+				return all
+			}
+		}
+	}
+	return all
+}
+
+func runWorkersOnce(bin, prop, tier string, seed uint64, nw int, budgetMs int, extra []string, scratch string) []*workerOut {
 	outs := make([]*workerOut, nw)
 	var wg sync.WaitGroup
 	for w := 0; w < nw; w++ {
@@ -356,9 +385,6 @@ func finish(prop, tier string, seed uint64, nw int, outs []*workerOut, nRace int
 		agg.Truncated += o.Truncated
 		agg.Leaked += o.Leaked
 		agg.Interesting += o.Interesting
-		if o.WallMs > searchMs {
-			searchMs = o.WallMs
-		}
 		for _, d := range o.Distinct {
 			distinct[d] = true
 		}
@@ -416,6 +442,17 @@ func finish(prop, tier string, seed uint64, nw int, outs []*workerOut, nRace int
 			fmt.Println(l)
 		}
 	}
+	// search time: the generations of worker processes run one after the other,
+	// the nw workers of one generation side by side
+	for g := 0; g*nw < len(outs); g++ {
+		var m int64
+		for i := g * nw; i < (g+1)*nw && i < len(outs); i++ {
+			if outs[i] != nil && outs[i].WallMs > m {
+				m = outs[i].WallMs
+			}
+		}
+		searchMs += m
+	}
 	// evidence
 	searchS := float64(searchMs) / 1000
 	if searchS <= 0 {
@@ -443,7 +480,7 @@ func finish(prop, tier string, seed uint64, nw int, outs []*workerOut, nRace int
 		"search_wall_s":       searchS,
 		"build_wall_s":        buildS,
 		"workers":             nw,
-		"race_build_workers":  nRace,
+		"race_build_workers":  min(nRace, nw),
 		"race_build_runs":     raceRuns,
 		"determinism_sample":  detSample,
 		"faults_fired":        agg.Faults,
